@@ -35,7 +35,7 @@ OBLIGATIONS = {
     "inexact_float_amount": "a UTXO amount whose float*1e8 is not an integer", "vout_nonzero": "a spent output index other than 0",
     "multi_input": "more than one input selected", "segwit_sender": "a segwit sender kind signed", "legacy_sender": "a legacy sender kind signed",
     "flag_not_all": "a sighash flag other than ALL", "nondefault_version_locktime": "version 2 or non-zero locktime",
-    "change_output": "a change output at or above dust", "subdust_change": "change below the dust threshold dropped",
+    "change_output": "a change output at or above dust", "change_near_dust": "a remainder of a few hundred / few thousand sat (either side of the 1000-sat dust threshold, below a non-default fee)", "subdust_change": "change below the dust threshold dropped",
     "raw_script_recipient": "a raw script recipient", "multisig_2_of_3": "2-of-3 multisig sender",
 }
 BOUND = {"quick": "small curve d<=2; secp256k1 d<=1", "thorough": "small curve d<=3; secp256k1 d<=2"}
@@ -52,7 +52,7 @@ def dims(tier):
         "vout0": [0, 1, 5], "amt": list(range(len(AMOUNTS))),
         "sender": SENDERS, "mn": [[1, 1], [1, 2], [2, 2], [2, 3]],
         "recip": RECIPS, "change": ["none", "other"],
-        "fraction": [1.0, 0.5, 0.1, 0.999, 0.00000003, 0.3],
+        "fraction": [1.0, 0.5, 0.1, 0.999, 0.00000003, 0.3, 0.999999, 0.9999999],
         "fee": [1000, 0, 12345], "version": [1, 2], "locktime": [0, 500000],
         "flag": FLAGS, "signed": [True, False],
     }
@@ -332,6 +332,8 @@ def run_job(job):
             acc.ob("flag_not_all")
         if (a["version"], a["locktime"]) != (1, 0):
             acc.ob("nondefault_version_locktime")
+        if a["fraction"] in (0.999999, 0.9999999):
+            acc.ob("change_near_dust")
         if a["fraction"] in (0.5, 0.1, 0.3):
             acc.ob("change_output")
         if a["fraction"] == 0.999 or (a["fraction"] == 1.0):
